@@ -536,3 +536,29 @@ add("P5b", "keep", CORE, "GroupBy.apply", "group_index = group_index[group_count
 add("P20", "break", CORE, "GroupBy.var", "return (sq_sum - sum_sq / count) / (count - ddof)", "return np.fmax(sq_sum - sum_sq / count, 0.0) / (count - ddof)", name="P20 variance numerator clamped with fmax (drops NaN)")
 add("P20", "break", UTIL, "mean_from_sum_count", "return sum_ / count", "return (sum_ / count).fillna(0)", name="P20 mean of an empty group filled with 0")
 add("P20", "keep", CORE, "GroupBy.var", "return (sq_sum - sum_sq / count) / (count - ddof)", "return np.maximum(sq_sum - sum_sq / count, 0.0) / (count - ddof)", name="P20 clamp with np.maximum (propagates NaN)")
+
+# --------------------------------------------------------------------------------------------- W1 W2 (rolling windows)
+for fn, parr in (("_rolling_sum_or_mean_1d", "group_positions"), ("_rolling_max_or_min_1d", "group_buffer_pos"), ("_rolling_shift_or_diff_1d", "group_buffer_pos")):
+    add("W1", "break", NB, fn, "(pos + 1) % window", "pos % window + 1", name=f"W1 position not wrapped in {fn}")
+    add("W1", "break", NB, fn, "(pos + 1) % window", "(pos + 1) % (window + 1)", name=f"W1 wrong modulus in {fn}")
+add("W1", "break", NB, "_rolling_sum_or_mean_1d", "group_full = group_n_seen[key] >= window", "group_full = group_n_seen[key] > window", name="W1 fullness one row late (sum)")
+add("W1", "break", NB, "_rolling_max_or_min_1d", "group_full = n_seen >= window", "group_full = n_seen > window", name="W1 fullness one row late (max/min)")
+add("W1", "break", NB, "_rolling_shift_or_diff_1d", "if group_counts[key] >= window:", "if group_counts[key] > window:", name="W1 fullness one row late (shift)")
+add("W1", "break", NB, "_rolling_sum_or_mean_1d", "            if not group_full:\n                group_n_seen[key] += 1\n", "            group_n_seen[key] += 1\n", name="W1 row counter keeps counting after the buffer is full", accept_error=False)
+add("W1", "break", NB, "_rolling_sum_or_mean_1d", "            group_buffers[key, pos] = val\n", "            if not val_is_null:\n                group_buffers[key, pos] = val\n", name="W1 null values not stored in the buffer")
+add("W1", "keep", NB, "_rolling_sum_or_mean_1d", "group_positions[key] = (pos + 1) % window", "group_positions[key] = (1 + pos) % window", name="W1 commuted increment")
+add("W1", "keep", NB, "_rolling_max_or_min_1d", "            new_position = (pos + 1) % window\n            group_buffer_pos[key] = new_position\n", "            group_buffer_pos[key] = (pos + 1) % window\n", name="W1 position update inlined")
+add("W2", "break", NB, "_rolling_sum_or_mean_1d", "if group_non_null[key] >= min_periods:", "if group_non_null[key] > min_periods:", name="W2 emission needs one value too many")
+add("W2", "break", NB, "_rolling_max_or_min_1d", "if group_non_null[key] >= min_periods:", "if group_n_seen[key] >= min_periods:", name="W2 emission counts rows, not non-null values", accept_error=True)
+add("W2", "break", NB, "_rolling_sum_or_mean_1d", "    if min_periods is None:\n        min_periods = window\n", "    if min_periods is None:\n        min_periods = 1\n", name="W2 min_periods defaults to 1")
+add("W2", "break", NB, "_rolling_sum_or_mean_1d", "            group_buffers[key, pos] = val\n", "", also=((NB, "_rolling_sum_or_mean_1d", "            group_full = group_n_seen[key] >= window\n", "            group_full = group_n_seen[key] >= window\n            group_buffers[key, pos] = val\n"),), name="W2 new value stored before the evicted one is read", expect_func="*")
+
+# --------------------------------------------------------------------------------------------- H1 H2
+add("H1", "break", NB, "_find_nth", "        if seen[k] == n:\n            assert out[k] == -1\n            out[k] = i\n        seen[k] += 1\n", "        seen[k] += 1\n        if seen[k] == n:\n            assert out[k] == -1\n            out[k] = i\n", name="H1 counter incremented before the comparison (nth off by one)")
+add("H1", "break", NB, "_find_nth", "if seen[k] == n:", "if seen[k] >= n:", name="H1 nth records every later occurrence", accept_error=True)
+add("H1", "break", NB, "_find_nth", "        n = -n - 1\n", "        n = -n\n", name="H1 negative n not shifted by one")
+add("H1", "break", NB, "_find_first_or_last_n", "        if j < n:", "        if j <= n:", name="H1 head stores n+1 rows (slot out of range)")
+add("H1", "keep", NB, "_find_nth", "        n = -n - 1\n", "        n = -1 - n\n", name="H1 n := -1 - n")
+add("H2", "break", CORE, "GroupBy._build_group_sorted_indexer_numba", "group_starts[i + 1] = group_starts[i] + group_counts[i]", "group_starts[i + 1] = group_starts[i] + group_counts[i + 1]", name="H2 group starts use the next group's count", accept_error=True)
+add("H2", "break", CORE, "GroupBy._build_group_sorted_indexer_numba", "                    indexer[pos] = i\n                    current_pos[k] += 1\n", "                    current_pos[k] += 1\n                    indexer[pos + 1] = i\n", name="H2 position advanced before the write", accept_error=True)
+add("H2", "break", CORE, "GroupBy._build_group_sorted_indexer_numba", "                    current_pos[k] += 1\n", "", name="H2 position never advanced")
